@@ -299,7 +299,18 @@ def lit_axioms():
 
 
 # --------------------------------------------------------------------------- axioms
+_base_cache = {}
+
+
 def base_axioms():
+    key = (len(_lit_cache), len(_list_fns), len(_bag_size))
+    if key not in _base_cache:
+        _base_cache.clear()
+        _base_cache[key] = _base_axioms()
+    return _base_cache[key]
+
+
+def _base_axioms():
     """Background axioms (all true of CPython str / binary64 restricted to [0,1])."""
     ax = []
     x, y, z = z3.Consts('x y z', F)
@@ -367,6 +378,7 @@ def base_axioms():
                         patterns=[z3.MultiPattern(sofint(a), sofint(b))]))
     ax.extend(lit_axioms())
     ax.extend(list_axioms())
+    ax.extend(bag_axioms())
     return ax
 
 
@@ -436,22 +448,43 @@ def _has_bound_var(t):
     return False
 
 
+_apps_cache = {}      # formula id -> (formula kept alive, spec-function applications in it)
+_unfold_cache = {}    # application id -> (app kept alive, unfolding instances)
+
+
+def _apps_of(f):
+    fid = f.get_id()
+    hit = _apps_cache.get(fid)
+    if hit is not None:
+        return hit[1]
+    out = []
+    _walk(f, set(), out)
+    out = [a for a in out if not _has_bound_var(a)]
+    _apps_cache[fid] = (f, out)
+    return out
+
+
 def instantiate(formulas, fuel=2):
-    """Ground unfolding of spec-function applications occurring in formulas."""
-    seen = set()
+    """Ground unfolding of spec-function applications occurring in formulas (memoised per formula)."""
     done = set()
     extra = []
     frontier = list(formulas)
     for _ in range(fuel):
         apps = []
         for f in frontier:
-            _walk(f, seen, apps)
+            apps.extend(_apps_of(f))
         frontier = []
         for app in apps:
-            if app.get_id() in done or _has_bound_var(app):
+            aid = app.get_id()
+            if aid in done:
                 continue
-            done.add(app.get_id())
-            inst = SpecFun.registry[app.decl().name()].unfold(app)
+            done.add(aid)
+            hit = _unfold_cache.get(aid)
+            if hit is None:
+                inst = SpecFun.registry[app.decl().name()].unfold(app)
+                _unfold_cache[aid] = (app, inst)
+            else:
+                inst = hit[1]
             extra.extend(inst)
             frontier.extend(inst)
         if not frontier:
@@ -463,11 +496,29 @@ def instantiate(formulas, fuel=2):
 _bag_size = {}
 
 
+_bag_shapes = {}
+
+
 def bag_size(bag_shape):
     k = bag_shape.key()
     if k not in _bag_size:
         _bag_size[k] = z3.Function('bag_size_' + _san(k), bag_shape.sort(), IntS)
+        _bag_shapes[k] = bag_shape
     return _bag_size[k]
+
+
+def bag_axioms():
+    """bag_size is the number of elements of a finite multiset: never negative, and zero only
+    for the multiset without elements (assumption on the heap view, DESIGN 3.3)."""
+    out = []
+    for k, f in _bag_size.items():
+        sh = _bag_shapes[k]
+        b = z3.Const('b!bs', sh.sort())
+        x = z3.Const('x!bs', sh.elem.sort())
+        out.append(z3.ForAll([b], f(b) >= 0, patterns=[f(b)]))
+        out.append(z3.ForAll([b, x], z3.Implies(f(b) == 0, z3.Select(b, x) <= 0),
+                             patterns=[z3.MultiPattern(f(b), z3.Select(b, x))]))
+    return out
 
 
 # --------------------------------------------------------------------------- list operations as functions
